@@ -71,6 +71,13 @@ CHECKS = {
          "reference scan on each spec's witness words at exact/longer/truncated lengths, with prefixes, on joint words of all compatible pairs, filler and empty inputs, in ARM/Thumb and both fetch endiannesses.",
     note="Registration order is read from the spec modules imported before the cpu module sorts them in place (fresh process per mode). Known finding: Thumb with big-endian fetch (tree built for little-endian at import).",
     design="DESIGN.md section 3, C04"),
+ "C05": dict(
+    category="model_checking",
+    technique="complete spec-driven enumeration of instruction words per ISA mode; prefix/length/truncation/extension/window relations checked on every decoded instruction",
+    text="For every byte string of the spec-driven enumeration (fields walked, tails, x86 ModRM/SIB/prefix menus) that decodes: length within bounds, bytes a prefix of the input, "
+         "decoding exactly the consumed bytes, the consumed bytes followed by each tail of the menu, and the maxlen window all yield the same instruction (bytes, mnemonic, operands, type, misc).",
+    note="Same enumerator and bounds as C17. Known findings (dwarf/wasm/msp430 LEB/immediate tails accepted when missing) are listed in KNOWN_FINDINGS.json keyed by (ISA, mode, relation, setup function).",
+    design="DESIGN.md section 3, C05"),
  "C08": dict(
     category="model_checking",
     technique="explicit-state exploration of write/copy/restruct/shift/merge histories on the real MemoryMap against a dict byte-store reference",
